@@ -279,20 +279,51 @@ func rsRendered(doc []byte) []byte {
 	return out
 }
 
-// VerifSVGTextSpaces (C05): <svg><text>U1..Un</text></svg>: the rendered string is the same.
+// rsRenderedPreserve: xml:space="preserve": tabs (and newlines) become spaces, nothing is stripped or collapsed.
+func rsRenderedPreserve(doc []byte) []byte {
+	var chars []byte
+	for i := 0; i < len(doc); i++ {
+		if doc[i] == '<' {
+			for i < len(doc) && doc[i] != '>' {
+				i++
+			}
+			continue
+		}
+		c := doc[i]
+		if c == '\t' {
+			c = ' '
+		}
+		chars = append(chars, c)
+	}
+	return chars
+}
+
+// VerifSVGTextSpaces (C05): <svg><text>U1..Un</text></svg>, with and without xml:space="preserve": the rendered
+// string is the same.
 func VerifSVGTextSpaces(n int) {
+	preserve := vBool("preserve")
 	in := []byte("<svg><text>")
+	if preserve {
+		in = []byte("<svg><text xml:space=\"preserve\">")
+	}
 	for i := 0; i < n; i++ {
 		in = append(in, verifSVGTextUnits[vChoice("u"+string(rune('0'+i)), len(verifSVGTextUnits))]...)
 	}
 	in = append(in, "</text></svg>"...)
 	want := rsRendered(in)
+	if preserve {
+		want = rsRenderedPreserve(in)
+	}
 	w := &vWriter{}
 	err := (&Minifier{}).Minify(minify.New(), w, &vReader{b: append(make([]byte, 0, len(in)+1), in...)}, nil)
 	vReach("after-call")
 	vOutput("out", w.buf)
 	vAssert(err == nil, "accepted")
 	got := rsRendered(w.buf)
+	if preserve {
+		vAssert(rsHas(w.buf, "xml:space=\"preserve\"") || rsHas(w.buf, "xml:space='preserve'") || rsHas(w.buf, "xml:space=preserve"), "xml:space=\"preserve\" kept: "+string(w.buf))
+		got = rsRenderedPreserve(w.buf)
+	}
 	vAssert(string(got) == string(want), "same rendered text: "+string(in)+" => "+string(w.buf))
 	vReach("end")
 }
@@ -323,4 +354,13 @@ func VerifSVGTextAttrs(n int) {
 	}
 	vAssert(found, "text-valued attribute kept byte for byte: "+string(in)+" => "+string(w.buf))
 	vReach("end")
+}
+
+func rsHas(b []byte, s string) bool {
+	for i := 0; i+len(s) <= len(b); i++ {
+		if string(b[i:i+len(s)]) == s {
+			return true
+		}
+	}
+	return false
 }
